@@ -8,7 +8,7 @@
 use super::*;
 // the verified byte-arithmetic model of be_varint (proved equal to the real parser by
 // c03_varint_model_equivalence in frames_c03.rs)
-use crate::frame::verif_frames_c03::model_be_varint;
+use crate::frame::verif_frames_c03::{model_be_varint, stub_slice_index_fail};
 
 /// A packet payload with arbitrary content and arbitrary length 0..=N.
 fn any_payload<const N: usize>() -> (Bytes, &'static [u8; N]) {
@@ -59,6 +59,7 @@ fn crypto_arm<const N: usize>() {
 }
 
 #[kani::proof]
+#[kani::stub(core::slice::index::slice_index_fail, stub_slice_index_fail)]
 #[kani::unwind(10)]
 #[kani::stub(crate::varint::be_varint, model_be_varint)]
 fn c03_complete_frame_crypto_arm() {
@@ -103,6 +104,7 @@ fn stream_arm<const N: usize>(l: Len) {
 
 /// STREAM frames with an explicit length field.
 #[kani::proof]
+#[kani::stub(core::slice::index::slice_index_fail, stub_slice_index_fail)]
 #[kani::unwind(10)]
 #[kani::stub(crate::varint::be_varint, model_be_varint)]
 fn c03_complete_frame_stream_arm_len() {
@@ -111,6 +113,7 @@ fn c03_complete_frame_stream_arm_len() {
 
 /// STREAM frames without length field (extend to the end of the packet).
 #[kani::proof]
+#[kani::stub(core::slice::index::slice_index_fail, stub_slice_index_fail)]
 #[kani::unwind(10)]
 #[kani::stub(crate::varint::be_varint, model_be_varint)]
 fn c03_complete_frame_stream_arm_nolen() {
@@ -154,6 +157,7 @@ fn datagram_arm<const N: usize>() {
 }
 
 #[kani::proof]
+#[kani::stub(core::slice::index::slice_index_fail, stub_slice_index_fail)]
 #[kani::unwind(10)]
 #[kani::stub(crate::varint::be_varint, model_be_varint)]
 fn c03_complete_frame_datagram_arm() {
